@@ -54,10 +54,10 @@ Fixpoint never_loads (a : arch) (pl : pols) (t : ty) (d : doc) : bool :=
   end.
 
 (* every position of d at which a stale value could survive is loaded (or raises an exception):
-   the elements of sequences and fixed arrays, the members of pairs, the value itself.  Containers
-   that are cleared or rebuilt first (sets, maps in Clean mode, multimaps, valarray, vector<bool>,
-   bitset) only need their scope to open; an optional / smart pointer may also hold a document that
-   is never loaded, because it is reset then. *)
+   the elements of fixed arrays, the members of pairs, the value itself.  Containers that are
+   cleared or rebuilt first (sets, maps in Clean mode, multimaps, valarray, vector<bool>, bitset) only
+   need their scope to open; an optional / smart pointer, and (since 772314c) an element of a
+   sequence container, may also hold a document that is never loaded, because it is reset then. *)
 Fixpoint all_load (a : arch) (pl : pols) (t : ty) (d : doc) : bool :=
   match t with
   | TInt => negb (unloaded (load_int pl 0%Z d))
@@ -65,7 +65,11 @@ Fixpoint all_load (a : arch) (pl : pols) (t : ty) (d : doc) : bool :=
   | TStr => negb (unloaded (load_str a pl [] d))
   | TSeq k t' =>
       match open_array a pl d with
-      | Ok (Some (_, ds)) => match k with SValarray => true | _ => forallb (all_load a pl t') ds end
+      | Ok (Some (_, ds)) =>
+          match k with
+          | SValarray => true
+          | _ => forallb (fun di => all_load a pl t' di || never_loads a pl t' di) ds
+          end
       | Ok None => false
       | Exc _ => true
       end
@@ -172,6 +176,48 @@ Proof.
   - unfold object_unopened in H. destruct (open_object a pl d) as [[ms|]|e]; try discriminate. exists p. reflexivity.
 Qed.
 
+Lemma load_unloaded_default a pl t : forall d v, load a pl t (tdefault t) d = Ok (v, false) -> v = tdefault t.
+Proof.
+  destruct t; intros d v H; cbn [load tdefault] in H.
+  - destruct d; cbn in H; try (inversion H; reflexivity).
+    + destruct (in_int32 z); [discriminate|]. unfold on_overflow in H. destruct (p_overflow pl); inversion H; reflexivity.
+    + unfold on_mismatch in H. destruct (p_mismatch pl); inversion H; reflexivity.
+    + unfold on_mismatch in H. destruct (p_mismatch pl); inversion H; reflexivity.
+    + unfold on_mismatch in H. destruct (p_mismatch pl); inversion H; reflexivity.
+  - destruct d; cbn in H; try (inversion H; reflexivity).
+    + destruct (Z.eqb z 0); [discriminate|]. destruct (Z.eqb z 1); [discriminate|].
+      unfold on_overflow in H. destruct (p_overflow pl); inversion H; reflexivity.
+    + unfold on_mismatch in H. destruct (p_mismatch pl); inversion H; reflexivity.
+    + unfold on_mismatch in H. destruct (p_mismatch pl); inversion H; reflexivity.
+    + unfold on_mismatch in H. destruct (p_mismatch pl); inversion H; reflexivity.
+  - destruct d; cbn in H; try (inversion H; reflexivity).
+    + destruct (null_str a); try (inversion H; reflexivity).
+      unfold on_mismatch in H. destruct (p_mismatch pl); inversion H; reflexivity.
+    + unfold on_mismatch in H. destruct (p_mismatch pl); inversion H; reflexivity.
+    + unfold on_mismatch in H. destruct (p_mismatch pl); inversion H; reflexivity.
+    + unfold on_mismatch in H. destruct (p_mismatch pl); inversion H; reflexivity.
+    + unfold on_mismatch in H. destruct (p_mismatch pl); inversion H; reflexivity.
+  - destruct (open_array a pl d) as [[[est ds]|]|e]; cbn [bind] in H; try discriminate; [|inversion H; reflexivity].
+    destruct (unstate _); cbn [bind] in H; discriminate.
+  - destruct (open_array a pl d) as [[[est ds]|]|e]; cbn [bind] in H; try discriminate; [|inversion H; reflexivity].
+    destruct (unstate _); cbn [bind] in H; discriminate.
+  - destruct (open_array a pl d) as [[[est ds]|]|e]; cbn [bind] in H; try discriminate; [|inversion H; reflexivity].
+    destruct (unstate _); cbn [bind] in H; discriminate.
+  - destruct (open_array a pl d) as [[[est ds]|]|e]; cbn [bind] in H; try discriminate; [|inversion H; reflexivity].
+    destruct (unstate _); cbn [bind] in H; discriminate.
+  - destruct (open_array a pl d) as [[[est ds]|]|e]; cbn [bind] in H; try discriminate; [|inversion H; reflexivity].
+    destruct (unstate _); cbn [bind] in H; discriminate.
+  - destruct (open_object a pl d) as [[ms|]|e]; cbn [bind] in H; try discriminate; [|inversion H; reflexivity].
+    destruct (unstate _); cbn [bind] in H; discriminate.
+  - destruct (open_array a pl d) as [[[est ds]|]|e]; cbn [bind] in H; try discriminate; [|inversion H; reflexivity].
+    destruct (unstate _); cbn [bind] in H; discriminate.
+  - unfold load_ptr, lift in H. cbv zeta in H.
+    destruct (load a pl t (tdefault t) d) as [[v0 [|]]|e]; cbn [bind] in H; try discriminate. inversion H; reflexivity.
+  - destruct (open_object a pl d) as [[ms|]|e]; cbn [bind] in H; try discriminate; [|inversion H; reflexivity].
+    destruct (match member (DKStr key_name) ms with Some dv => _ | None => _ end) as [[k1 l1]|e]; cbn [bind] in H; [|discriminate].
+    destruct (match member (DKStr value_name) ms with Some dv => _ | None => _ end) as [[v1 l2]|e]; cbn [bind] in H; discriminate.
+Qed.
+
 (* the element loader the containers of the universe are instantiated with *)
 Definition uel (a : arch) (pl : pols) (t : ty) : tval t -> doc -> unit -> outcome (tval t * bool * unit) :=
   fun x di _ => lift (load a pl t x di).
@@ -180,6 +226,27 @@ Lemma uel_independent a pl t :
   (forall p d, wt t p = true -> all_load a pl t d = true -> load a pl t p d = load a pl t (tdefault t) d) ->
   prior_independent (uel a pl t) (tdefault t) (fun x => wt t x = true) (fun di => all_load a pl t di = true).
 Proof. intros IH p d s Hq Hp. unfold uel. rewrite (IH p d Hq Hp). reflexivity. Qed.
+
+Lemma agree_when_loaded_refl {A S} (o : outcome (A * bool * S)) : agree_when_loaded o o.
+Proof. destruct o as [[[v [|]] s]|e]; cbn; auto. Qed.
+
+(* an element of a sequence container: loaded independently of the prior value, or never loaded *)
+Lemma uel_independent_when_loaded a pl t :
+  (forall p d, wt t p = true -> all_load a pl t d = true -> load a pl t p d = load a pl t (tdefault t) d) ->
+  prior_independent_when_loaded (uel a pl t) (tdefault t) (fun x => wt t x = true)
+    (fun di => all_load a pl t di || never_loads a pl t di = true) /\
+  unloaded_keeps_fresh (uel a pl t) (tdefault t) (fun di => all_load a pl t di || never_loads a pl t di = true).
+Proof.
+  intros IH. split.
+  - intros p d s Hq Hp. unfold uel. apply orb_true_iff in Hp. destruct Hp as [Hp|Hp].
+    + rewrite (IH p d Hq Hp). apply agree_when_loaded_refl.
+    + destruct (never_loads_spec a pl t d Hp p) as [p1 E1].
+      destruct (never_loads_spec a pl t d Hp (tdefault t)) as [p2 E2].
+      rewrite E1, E2. cbn. reflexivity.
+  - intros d s v s' _ H. unfold uel, lift in H.
+    destruct (load a pl t (tdefault t) d) as [[v0 l0]|e] eqn:E; cbn [bind] in H; [|discriminate].
+    inversion H; subst. eapply load_unloaded_default. exact E.
+Qed.
 
 Theorem load_all_types_outside a pl : forall t p d,
   wt t p = true -> all_load a pl t d = true -> load a pl t p d = load a pl t (tdefault t) d.
@@ -193,14 +260,16 @@ Proof.
     destruct (open_array a pl d) as [[[est ds]|]|e]; cbn [bind]; try reflexivity; try discriminate.
     fold (uel a pl t').
     assert (E : seq_load k (uel a pl t') (tdefault t') p est ds tt = seq_load k (uel a pl t') (tdefault t') [] est ds tt).
-    { pose proof (uel_independent a pl t' IH) as Hi. pose proof (wt_default t') as Hd.
+    { destruct (uel_independent_when_loaded a pl t' IH) as [Hw Hk].
+      destruct (reset_true_independent (uel a pl t') (tdefault t') _ _ Hw Hk) as [Hr Hf].
+      pose proof (wt_default t') as Hd.
       apply forallb_Forall in Hwt.
       destruct k; cbn [seq_load]; try reflexivity;
         apply forallb_Forall in Hall;
-        try (rewrite (load_seq_spec _ _ _ _ Hi Hd p est ds tt Hwt Hall),
-                     (load_seq_spec _ _ _ _ Hi Hd [] est ds tt (Forall_nil _) Hall); reflexivity).
-      rewrite (load_fwd_spec _ _ _ _ Hi Hd p est ds tt Hwt Hall),
-              (load_fwd_spec _ _ _ _ Hi Hd [] est ds tt (Forall_nil _) Hall). reflexivity. }
+        try (rewrite (load_seq_spec _ _ true _ _ Hr Hf Hd p est ds tt Hwt Hall),
+                     (load_seq_spec _ _ true _ _ Hr Hf Hd [] est ds tt (Forall_nil _) Hall); reflexivity).
+      rewrite (load_fwd_spec _ _ true _ _ Hr Hf Hd p est ds tt Hwt Hall),
+              (load_fwd_spec _ _ true _ _ Hr Hf Hd [] est ds tt (Forall_nil _) Hall). reflexivity. }
     rewrite E. reflexivity.
   - (* TVBool *)
     unfold array_unopened in Hall.
@@ -255,17 +324,25 @@ Definition default_pols : pols := mkPols PThrow PThrow.
 Definition C18_all_types_statement : Prop :=
   forall a pl t p d, wt t p = true -> load a pl t p d = load a pl t (tdefault t) d.
 
-Lemma F36_witness :
-  load json_arch default_pols (TSeq SVector TInt) [7; 8]%Z (DArr 2 [DNull; DInt 2]) = Ok ([7; 2]%Z, true) /\
-  load json_arch default_pols (TSeq SVector TInt) [] (DArr 2 [DNull; DInt 2]) = Ok ([0; 2]%Z, true).
+(* what is left of F36 after 772314c: SerializeFixedSizeArray (and members of pairs, and a root
+   document that is not loaded) still keep the previous content *)
+Lemma stale_witness :
+  load json_arch default_pols (TArr 3 TInt) [7; 8; 9]%Z (DArr 3 [DNull; DInt 2; DNull]) = Ok ([7; 2; 9]%Z, true) /\
+  load json_arch default_pols (TArr 3 TInt) [0; 0; 0]%Z (DArr 3 [DNull; DInt 2; DNull]) = Ok ([0; 2; 0]%Z, true).
 Proof. split; vm_compute; reflexivity. Qed.
 
 Lemma all_types_refuted : ~ C18_all_types_statement.
 Proof.
   intros H.
-  specialize (H json_arch default_pols (TSeq SVector TInt) [7; 8]%Z (DArr 2 [DNull; DInt 2]) eq_refl).
-  destruct F36_witness as [E1 E2]. cbn [tdefault] in H. rewrite E1, E2 in H. discriminate.
+  specialize (H json_arch default_pols (TArr 3 TInt) [7; 8; 9]%Z (DArr 3 [DNull; DInt 2; DNull]) eq_refl).
+  destruct stale_witness as [E1 E2]. change (tdefault (TArr 3 TInt)) with [0; 0; 0]%Z in H. rewrite E1, E2 in H. discriminate.
 Qed.
+
+(* the repaired case: a sequence element that is not loaded no longer keeps the stale value *)
+Lemma F36_repaired :
+  load json_arch default_pols (TSeq SVector TInt) [7; 8]%Z (DArr 2 [DNull; DInt 2]) = Ok ([0; 2]%Z, true) /\
+  has_unloaded json_arch default_pols (TSeq SVector TInt) (DArr 2 [DNull; DInt 2]) = false.
+Proof. split; vm_compute; reflexivity. Qed.
 
 Lemma all_types_outside a pl t p d :
   wt t p = true -> has_unloaded a pl t d = false -> load a pl t p d = load a pl t (tdefault t) d.
@@ -279,19 +356,31 @@ Lemma load_map_mode_clean a pl kt t' p d :
   load_map_mode a pl Clean kt t' p d = load a pl (TMap kt t') p d.
 Proof. reflexivity. Qed.
 
-(* the nested closure: a sequence whose element loader is prior-independent is itself a
-   prior-independent element loader (on array documents whose elements are all in P) *)
-Definition seq_as_element {A D S} (el : A -> D -> S -> outcome (A * bool * S)) (dflt : A)
+(* the nested closure: a sequence container is itself a prior-independent element loader (on array
+   documents whose elements are all in P) as soon as its element loader is prior-independent when
+   loaded (assignable element type), or plainly prior-independent (otherwise) *)
+Definition seq_as_element {A D S} (el : A -> D -> S -> outcome (A * bool * S)) (dflt : A) (assignable : bool)
     : list A -> nat * list D -> S -> outcome (list A * bool * S) :=
-  fun p dv s => '(r, s') <- load_seq el dflt p (fst dv) (snd dv) s ;; Ok (r, true, s').
+  fun p dv s => '(r, s') <- load_seq el dflt assignable p (fst dv) (snd dv) s ;; Ok (r, true, s').
 
 Lemma seq_as_element_independent {A D S} (el : A -> D -> S -> outcome (A * bool * S)) dflt Q P :
+  prior_independent_when_loaded el dflt Q P -> unloaded_keeps_fresh el dflt P -> Q dflt ->
+  prior_independent (seq_as_element el dflt true) [] (Forall Q) (fun dv => Forall P (snd dv)).
+Proof.
+  intros Hw Hk Hd p dv s Hq Hp. unfold seq_as_element.
+  destruct (reset_true_independent el dflt Q P Hw Hk) as [Hr Hf].
+  rewrite (load_seq_spec el dflt true Q P Hr Hf Hd p (fst dv) (snd dv) s Hq Hp).
+  rewrite (load_seq_spec el dflt true Q P Hr Hf Hd [] (fst dv) (snd dv) s (Forall_nil _) Hp). reflexivity.
+Qed.
+
+Lemma seq_as_element_independent_nonassignable {A D S} (el : A -> D -> S -> outcome (A * bool * S)) dflt Q P :
   prior_independent el dflt Q P -> Q dflt ->
-  prior_independent (seq_as_element el dflt) [] (Forall Q) (fun dv => Forall P (snd dv)).
+  prior_independent (seq_as_element el dflt false) [] (Forall Q) (fun dv => Forall P (snd dv)).
 Proof.
   intros Hi Hd p dv s Hq Hp. unfold seq_as_element.
-  rewrite (load_seq_spec el dflt Q P Hi Hd p (fst dv) (snd dv) s Hq Hp).
-  rewrite (load_seq_spec el dflt Q P Hi Hd [] (fst dv) (snd dv) s (Forall_nil _) Hp). reflexivity.
+  destruct (reset_false_independent el dflt Q P Hi) as [Hr Hf].
+  rewrite (load_seq_spec el dflt false Q P Hr Hf Hd p (fst dv) (snd dv) s Hq Hp).
+  rewrite (load_seq_spec el dflt false Q P Hr Hf Hd [] (fst dv) (snd dv) s (Forall_nil _) Hp). reflexivity.
 Qed.
 
 Definition ptr_as_element {A D S} (el : A -> D -> S -> outcome (A * bool * S)) (dflt : A) := load_ptr el dflt.
@@ -306,36 +395,55 @@ Qed.
 
 (* ---------------- the statements of Properties_C18.v ---------------- *)
 Lemma seq_populated_eq_fresh {A D S} (el : A -> D -> S -> outcome (A * bool * S)) dflt (Q : A -> Prop) (P : D -> Prop) :
-  prior_independent el dflt Q P -> Q dflt ->
+  prior_independent_when_loaded el dflt Q P -> unloaded_keeps_fresh el dflt P -> Q dflt ->
   forall prior est data s, Forall Q prior -> Forall P data ->
-    load_seq el dflt prior est data s = load_seq el dflt [] 0 data s /\
-    load_seq el dflt prior est data s = fresh_elems el dflt data s.
+    load_seq el dflt true prior est data s = load_seq el dflt true [] 0 data s /\
+    load_seq el dflt true prior est data s = fresh_elems el dflt data s.
 Proof.
-  intros Hi Hd prior est data s Hq Hp.
-  rewrite (load_seq_spec el dflt Q P Hi Hd prior est data s Hq Hp).
-  rewrite (load_seq_spec el dflt Q P Hi Hd [] 0 data s (Forall_nil _) Hp). split; reflexivity.
+  intros Hw Hk Hd prior est data s Hq Hp.
+  destruct (reset_true_independent el dflt Q P Hw Hk) as [Hr Hf].
+  rewrite (load_seq_spec el dflt true Q P Hr Hf Hd prior est data s Hq Hp).
+  rewrite (load_seq_spec el dflt true Q P Hr Hf Hd [] 0 data s (Forall_nil _) Hp). split; reflexivity.
 Qed.
 
-Lemma seq_populated_eq_fresh_plain {A D S} (el : A -> D -> S -> outcome (A * bool * S)) dflt :
-  (forall p d s, el p d s = el dflt d s) ->
-  forall prior est data s, load_seq el dflt prior est data s = load_seq el dflt [] 0 data s.
+Lemma seq_populated_eq_fresh_nonassignable {A D S} (el : A -> D -> S -> outcome (A * bool * S)) dflt (Q : A -> Prop) (P : D -> Prop) :
+  prior_independent el dflt Q P -> Q dflt ->
+  forall prior est data s, Forall Q prior -> Forall P data ->
+    load_seq el dflt false prior est data s = load_seq el dflt false [] 0 data s /\
+    load_seq el dflt false prior est data s = fresh_elems el dflt data s.
 Proof.
-  intros Hi prior est data s.
-  apply (seq_populated_eq_fresh el dflt (fun _ => True) (fun _ => True)); try exact I.
-  - intros p d s0 _ _. apply Hi.
-  - apply Forall_forall. intros; exact I.
-  - apply Forall_forall. intros; exact I.
+  intros Hi Hd prior est data s Hq Hp.
+  destruct (reset_false_independent el dflt Q P Hi) as [Hr Hf].
+  rewrite (load_seq_spec el dflt false Q P Hr Hf Hd prior est data s Hq Hp).
+  rewrite (load_seq_spec el dflt false Q P Hr Hf Hd [] 0 data s (Forall_nil _) Hp). split; reflexivity.
+Qed.
+
+Lemma seq_populated_eq_fresh_plain {A D S} (el : A -> D -> S -> outcome (A * bool * S)) dflt asg :
+  (forall p d s, el p d s = el dflt d s) ->
+  (forall d s v s', el dflt d s = Ok (v, false, s') -> v = dflt) ->
+  forall prior est data s, load_seq el dflt asg prior est data s = load_seq el dflt asg [] 0 data s.
+Proof.
+  intros Hi Hk prior est data s.
+  assert (HQ : forall l : list A, Forall (fun _ => True) l) by (intros l; apply Forall_forall; intros; exact I).
+  assert (HP : forall l : list D, Forall (fun _ => True) l) by (intros l; apply Forall_forall; intros; exact I).
+  destruct asg.
+  - apply (seq_populated_eq_fresh el dflt (fun _ => True) (fun _ => True)); try exact I; try apply HQ; try apply HP.
+    + intros p d s0 _ _. rewrite Hi. apply agree_when_loaded_refl.
+    + intros d s0 v s' _. apply Hk.
+  - apply (seq_populated_eq_fresh_nonassignable el dflt (fun _ => True) (fun _ => True)); try exact I; try apply HQ; try apply HP.
+    intros p d s0 _ _. apply Hi.
 Qed.
 
 Lemma fwd_populated_eq_fresh {A D S} (el : A -> D -> S -> outcome (A * bool * S)) dflt (Q : A -> Prop) (P : D -> Prop) :
-  prior_independent el dflt Q P -> Q dflt ->
+  prior_independent_when_loaded el dflt Q P -> unloaded_keeps_fresh el dflt P -> Q dflt ->
   forall prior est data s, Forall Q prior -> Forall P data ->
-    load_fwd el dflt prior est data s = load_fwd el dflt [] 0 data s /\
-    load_fwd el dflt prior est data s = fresh_elems el dflt data s.
+    load_fwd el dflt true prior est data s = load_fwd el dflt true [] 0 data s /\
+    load_fwd el dflt true prior est data s = fresh_elems el dflt data s.
 Proof.
-  intros Hi Hd prior est data s Hq Hp.
-  rewrite (load_fwd_spec el dflt Q P Hi Hd prior est data s Hq Hp).
-  rewrite (load_fwd_spec el dflt Q P Hi Hd [] 0 data s (Forall_nil _) Hp). split; reflexivity.
+  intros Hw Hk Hd prior est data s Hq Hp.
+  destruct (reset_true_independent el dflt Q P Hw Hk) as [Hr Hf].
+  rewrite (load_fwd_spec el dflt true Q P Hr Hf Hd prior est data s Hq Hp).
+  rewrite (load_fwd_spec el dflt true Q P Hr Hf Hd [] 0 data s (Forall_nil _) Hp). split; reflexivity.
 Qed.
 
 Lemma fixed_populated_eq_fresh {A D S} (el : A -> D -> S -> outcome (A * bool * S)) dflt (Q : A -> Prop) (P : D -> Prop) :
@@ -352,10 +460,10 @@ Lemma vbool_populated_eq_fresh {D S} (elb : bool -> D -> S -> outcome (bool * bo
   load_vbool elb prior est data s = load_vbool elb [] 0 data s.
 Proof. rewrite !load_vbool_spec. reflexivity. Qed.
 
-Lemma cleared_first {A D S K V DK} (el : A -> D -> S -> outcome (A * bool * S)) dflt ins sc
+Lemma cleared_first {A D S K V DK} (el : A -> D -> S -> outcome (A * bool * S)) dflt asg ins
     (keq : K -> K -> bool) kconv (vload : DK -> V -> S -> outcome (V * bool * S)) vdflt :
-  (forall prior est data s, load_valarray el dflt prior est data s = load_valarray el dflt [] est data s) /\
-  (forall prior data s, load_set el dflt ins sc prior data s = load_set el dflt ins sc [] data s) /\
+  (forall prior est data s, load_valarray el dflt asg prior est data s = load_valarray el dflt asg [] est data s) /\
+  (forall prior data s, load_set el dflt ins prior data s = load_set el dflt ins [] data s) /\
   (forall prior data s, load_mmap el dflt prior data s = load_mmap el dflt [] data s) /\
   (forall prior aks s, load_map keq kconv vload vdflt Clean prior aks s = load_map keq kconv vload vdflt Clean [] aks s).
 Proof. repeat split. Qed.
